@@ -101,3 +101,23 @@ package cabf_br
 //@   ensures result != nil && fresh(result) && (result.Status == lint.Warn || result.Status == lint.Pass)
 //@   ensures (result.Status == lint.Warn) ==
 //@           !(65537 <= util.exponent(c) && util.exponent(c) < 115792089237316195423570985008687907853269984665640564039457584007913129639936)
+
+// ---------------------------------------------------------------------------
+// TLD lint (C18)
+
+//@ func (*DNSNameValidTLD).CheckApplies [C18]
+//@   requires c != nil
+//@   nopanic
+//@   assigns \fresh
+//@   ensures result == (!c.IsCA && !c.SelfSigned && (c.Subject.CommonName != "" || len(c.DNSNames) != 0))
+
+//@ func (*DNSNameValidTLD).Execute [C18]
+//@   requires c != nil && util.tldWF()
+//@   nopanic
+//@   assigns \fresh
+//@   loop 1 invariant forall(j, 0, k, util.HasValidTLD(c.DNSNames[j], c.NotBefore))
+//@   loop 1 invariant !(c.Subject.CommonName != "" && parseIP(c.Subject.CommonName) == nil && !util.HasValidTLD(c.Subject.CommonName, c.NotBefore))
+//@   ensures result != nil && fresh(result) && (result.Status == lint.Error || result.Status == lint.Pass)
+//@   ensures (result.Status == lint.Error) ==
+//@           ((c.Subject.CommonName != "" && parseIP(c.Subject.CommonName) == nil && !util.HasValidTLD(c.Subject.CommonName, c.NotBefore)) ||
+//@            exists(j, 0, len(c.DNSNames), !util.HasValidTLD(c.DNSNames[j], c.NotBefore)))
